@@ -168,6 +168,11 @@ func (m *TargetsDiscovery) Run(ctx context.Context, sdChan <-chan map[string][]*
 }
 
 func (m *TargetsDiscovery) translateTargets(targets map[string][]*targetgroup.Group) map[string][]*SDTargets {
+	// the job configurations are read below: hold the lock for the whole update, otherwise an update computed
+	// under the old configuration can be stored after a reload that removed the job
+	m.targetsLock.Lock()
+	defer m.targetsLock.Unlock()
+
 	actives := map[string][]*SDTargets{}
 	drops := map[string][]*SDTargets{}
 	for job, tsg := range targets {
@@ -198,9 +203,6 @@ func (m *TargetsDiscovery) translateTargets(targets map[string][]*targetgroup.Gr
 		actives[job] = allActive
 		drops[job] = allDrop
 	}
-
-	m.targetsLock.Lock()
-	defer m.targetsLock.Unlock()
 
 	for job, targets := range actives {
 		m.activeTargets[job] = targets
